@@ -238,7 +238,9 @@ class Runnable(UsesState, HasLabel, HasRun, ABC):
                 if raise_run_exceptions:
                     raise e
                 else:
-                    run_output = None
+                    # The failure is fully processed (status, signals); do not go on to
+                    # process a non-existent result
+                    return None
             return self._finish_run(
                 run_output,
                 raise_run_exceptions=raise_run_exceptions,
